@@ -290,6 +290,11 @@ def _shard_d(args):
             n += 1
             comb = dict((a, v) for a, v in a1["writes"])
             comb.update((a, v) for a, v in a2.get("writes", []))
+            if full_rs.get("panic") or full_rs.get("err"):
+                if not (a2.get("panic") or a2.get("err")):
+                    vb.add(f"C07/rust/split-run/full-run-fails/{'+'.join(lp)}", f"loop {lp}: {total} steps in one run fail ({str(full_rs.get('panic') or full_rs.get('err'))[:120]}) "
+                           f"but {N}+{M} steps from the same architectural state complete", {"part": "D", "loop": lp, "N": N, "M": M, "state": c06_state(st)})
+                continue
             if a2.get("panic") or any(full_rs["regs"][k] != a2["regs"][k] for k in pycpu.ARCH_REGS) or \
                     sorted(comb.items()) != sorted((a, v) for a, v in full_rs["writes"]):
                 vb.add(f"C07/rust/split-run/{'+'.join(lp)}", f"loop {lp}: {total} steps != {N}+{M} steps: "
@@ -408,7 +413,7 @@ def run(ctx) -> None:
     from . import c18_cpu
     ctx.coverage["part_G_runtime_step_splits"] = c18_cpu.run_step_split(ctx, "C07/rust-runtime/step-split")
     K = 12 if ctx.thorough else 8
-    resD = pmap(_shard_d, [(lp, st_a, K) for lp in c06.LOOPS])
+    resD = pmap(_shard_d, [(lp, st_a, K if len(lp) > 1 else max(K, 12)) for lp in c06.LOOPS])
     nE, vbE = _part_e(st_a)
     cases = [p for p in pal]
     resC = [_part_c((cases, st_a))]
